@@ -53,6 +53,15 @@ def cases(tier, cfg):
             if not base:
                 sizes = sorted({1, W - 1, W, W + 1, 2 * W + 1, 3 * W + 1} - {0})
         funcs = ["sum", "product", "min", "max", "inner2", "msum", "mproduct"] + (["norm"] if fp else [])
+        # long inputs: the reductions unroll their vector loop four or eight times, so a block of the unrolled loop needs >= 8W elements
+        long_sizes = []
+        if main or (tier == "thorough" and base):
+            long_sizes = [8 * W, 8 * W + 3] if tier == "quick" else [4 * W + 1, 5 * W, 8 * W, 8 * W + 1, 8 * W + 3, 9 * W + 1]
+        for n in long_sizes:
+            for f in funcs:
+                for a in (("tensor", "add") if f in ("sum", "min", "max", "product", "norm") else ("tensor",)):
+                    out.append(Case(f"C16/{f}[{t}|N={n}|arg={a}]", f"c16::red<{F[f]},{ARG[a]},Fastor::Tensor<{ct},{n}>>(fx);", route=f"{f}.{a}.long",
+                                    cost=0.15))
         for n in sizes:
             for f in funcs:
                 args = ["tensor"]
@@ -108,6 +117,6 @@ def cases(tier, cfg):
 
 
 def bounds(tier):
-    return {"quick": "sizes {1,2,3,W-1..W+1,2W-1..2W+1,3W+1}; functions sum,product,min,max,norm,inner,trace,.sum(),.product(); argument kinds tensor (+ a+b,-a,view on three sizes); "
+    return {"quick": "sizes {1,2,3,W-1..W+1,2W-1..2W+1,3W+1} + long {8W,8W+3} (tensor and a+b arguments; S2/A2/A5); functions sum,product,min,max,norm,inner,trace,.sum(),.product(); argument kinds tensor (+ a+b,-a,view on three sizes); "
                      "determinant n in {1..6,8} x {default,LU,QR}; predicates all 2^n masks n<=12; tolerance predicates n<=4; types f32,f64,i32,i64; six ISAs",
-            "thorough": "every size 1..3W+1 x all argument kinds; determinant n<=10 x five spellings; predicates n<=12 both float types; + C++17, O0, O3, clang, FASTOR_USE_HADD"}[tier]
+            "thorough": "every size 1..3W+1 x all argument kinds + long {4W+1,5W,8W,8W+1,8W+3,9W+1} (tensor, a+b); determinant n<=10 x five spellings; predicates n<=12 both float types; + C++17, O0, O3, clang, FASTOR_USE_HADD"}[tier]
